@@ -115,7 +115,7 @@ PROPS["C17"] = {
     "units": [
         {"name": "histories", "pkg": "./range-cache", "run": "TestVfC17", "checks": T(20000, 1000000), "shards": T(4, 16), "timeout": T(600, 3000)},
         {"name": "exhaustive", "pkg": "./range-cache", "run": "TestVfC17Exhaustive", "kind": "plain", "checks": 0, "shards": T(4, 16), "timeout": T(600, 3000), "env": {"VERIF_C17_LEN": T(2, 3)}},
-        {"name": "concurrent", "pkg": "./range-cache", "run": "TestVfC17Concurrent", "checks": T(300, 20000), "shards": T(2, 8), "timeout": T(600, 3000)},
+        {"name": "concurrent", "pkg": "./range-cache", "run": "TestVfC17Concurrent", "replay": "TestVfReplayC17Concurrent", "checks": T(300, 20000), "shards": T(2, 8), "timeout": T(600, 3000), "crash_is_violation": True},
         {"name": "http", "pkg": "./split-car-fetcher", "run": "TestVfC17HTTP", "replay": "TestVfReplayC17HTTP", "checks": T(150, 6000), "shards": T(3, 12), "timeout": T(600, 3000)},
     ],
 }
